@@ -744,6 +744,9 @@ func runC09(c *Ctx) {
 		}
 	}
 	c09Pairing(c, ci, set, get, del)
+	if set != nil {
+		c09SetDecision(c, set)
+	}
 }
 
 // c09Pairing: explicit forms of what the instance floors used to catch by
@@ -1392,4 +1395,160 @@ func c09Config(c *Ctx) {
 	}
 	a.Entry(nc, nil)
 	recordObligations(c, a, "C09", func(o *lincon.Oblig) bool { return strings.HasPrefix(o.Kind, "assert:") })
+}
+
+// c09SetDecision: which of refuse / evict / store Set does, as a function of
+// its four tests — (T) the element exceeds MaxElementSize, (L) conf.EnableLRU,
+// (S) size+add > MaxSize, (N) len(items) == MaxCount — by walking the CFG
+// from the entry under all 16 outcomes: T -> refuse; !L && (S || N) -> refuse;
+// L && (S || N) -> evict; otherwise store.  The refusal test and the eviction
+// loop test are separate code: the table ties them to the same predicate.
+func c09SetDecision(c *Ctx, set *ssa.Function) {
+	c.L.Floor("C09.set-decision", 1)
+	what := "refuse / evict / store as a function of (too big, LRU, size full, count full)"
+	recv := ssa.Value(set.Params[0])
+	fieldLoad := func(v ssa.Value, path ...string) bool {
+		p := core.PathOf(v)
+		if p.Base != recv || len(p.Fields) != len(path) {
+			return false
+		}
+		for i := range path {
+			if p.Fields[i] != path[i] {
+				return false
+			}
+		}
+		return true
+	}
+	isAddSize := func(v ssa.Value) bool {
+		if cv, ok := v.(*ssa.Convert); ok {
+			v = cv.X
+		}
+		b, ok := v.(*ssa.BinOp)
+		if !ok || b.Op != token.ADD {
+			return false
+		}
+		lx, okx := b.X.(*ssa.Call)
+		ly, oky := b.Y.(*ssa.Call)
+		return okx && oky && core.CalleeName(&lx.Call) == "builtin.len" && core.CalleeName(&ly.Call) == "builtin.len" &&
+			((lx.Call.Args[0] == ssa.Value(set.Params[1]) && ly.Call.Args[0] == ssa.Value(set.Params[2])) || (lx.Call.Args[0] == ssa.Value(set.Params[2]) && ly.Call.Args[0] == ssa.Value(set.Params[1])))
+	}
+	classify := func(v ssa.Value) (string, bool) {
+		if fieldLoad(v, "conf", "EnableLRU") {
+			return "L", true
+		}
+		b, ok := v.(*ssa.BinOp)
+		if !ok {
+			return "", false
+		}
+		switch {
+		case b.Op == token.GTR && isAddSize(b.X) && fieldLoad(b.Y, "conf", "MaxElementSize"):
+			return "T", true
+		case b.Op == token.GTR && fieldLoad(b.Y, "conf", "MaxSize"):
+			if s, ok := b.X.(*ssa.BinOp); ok && s.Op == token.ADD && ((fieldLoad(s.X, "size") && isAddSize(s.Y)) || (fieldLoad(s.Y, "size") && isAddSize(s.X))) {
+				return "S", true
+			}
+		case b.Op == token.EQL && fieldLoad(b.Y, "conf", "MaxCount"):
+			x := b.X
+			if cv, ok := x.(*ssa.Convert); ok {
+				x = cv.X
+			}
+			if lc, ok := x.(*ssa.Call); ok && core.CalleeName(&lc.Call) == "builtin.len" && fieldLoad(lc.Call.Args[0], "items") {
+				return "N", true
+			}
+		}
+		return "", false
+	}
+	var head *ssa.BasicBlock
+	for h := range core.LoopHeads(set) {
+		head = h
+	}
+	if head == nil {
+		c.undecided("C09.set-decision", set, what, nil, "no eviction loop")
+		return
+	}
+	body := core.LoopBody(head)
+	bad, undec := "", ""
+	n := 0
+	for m := 0; m < 16 && undec == ""; m++ {
+		asg := map[string]bool{"T": m&1 != 0, "L": m&2 != 0, "S": m&4 != 0, "N": m&8 != 0}
+		b := set.Blocks[0]
+		outcome := ""
+		for steps := 0; steps < 64 && outcome == "" && undec == ""; steps++ {
+			evicts := false
+			for _, in := range b.Instrs {
+				if call, ok := in.(*ssa.Call); ok && body[b] {
+					if cal := call.Call.StaticCallee(); cal != nil && (cal.Name() == "listFirst" || cal.Name() == "listUnlink") {
+						evicts = true
+					}
+				}
+			}
+			if evicts {
+				outcome = "evict"
+				break
+			}
+			stored := false
+			for _, in := range b.Instrs {
+				if mu, ok := in.(*ssa.MapUpdate); ok {
+					if _, _, isItems := loadedCacheField(mu.Map); isItems {
+						stored = true
+					}
+				}
+				// the replaced-entry lookup belongs to the store phase
+				if lk, ok := in.(*ssa.Lookup); ok && !body[b] {
+					if _, _, isItems := loadedCacheField(lk.X); isItems {
+						stored = true
+					}
+				}
+			}
+			if stored {
+				outcome = "store"
+				break
+			}
+			switch t := b.Instrs[len(b.Instrs)-1].(type) {
+			case *ssa.Return:
+				if k, isK := core.ConstBool(t.Results[0]); isK && !k {
+					outcome = "refuse"
+				} else {
+					outcome = "return"
+				}
+			case *ssa.Jump:
+				b = b.Succs[0]
+			case *ssa.If:
+				cond, truth := core.StripNot(t.Cond, true)
+				name, ok := classify(cond)
+				if !ok {
+					undec = "a test that is not one of the four recognised ones: " + core.Describe(cond)
+					break
+				}
+				if asg[name] == truth {
+					b = b.Succs[0]
+				} else {
+					b = b.Succs[1]
+				}
+			default:
+				undec = "unexpected block end"
+			}
+		}
+		if undec != "" {
+			break
+		}
+		n++
+		want := "store"
+		switch {
+		case asg["T"]:
+			want = "refuse"
+		case !asg["L"] && (asg["S"] || asg["N"]):
+			want = "refuse"
+		case asg["L"] && (asg["S"] || asg["N"]):
+			want = "evict"
+		}
+		if outcome != want && bad == "" {
+			bad = sprintf("for %v Set does %q, expected %q", asg, outcome, want)
+		}
+	}
+	if undec != "" {
+		c.undecided("C09.set-decision", set, what, nil, undec)
+		return
+	}
+	c.check(bad == "", "C09.set-decision", set, what, nil, sprintf("%d outcomes walked. %s", n, bad))
 }
